@@ -383,3 +383,127 @@ Proof.
     + intros He. apply (poly_intended_not_conflict e thr range F n C [] k Ht HF HC).
       rewrite Hb. cbn [basep]. pose proof (lfp_co F) as Hco. rewrite He in Hco. exact Hco.
 Qed.
+
+(* ------------------------------------------------------------------ *)
+(** * The fuel is enough: the loop ends as the python `while changed` loop does *)
+
+Definition unb (a : passign) (v : nat) : bool := match pa_get a v with None => true | Some _ => false end.
+(* number of literal occurrences whose variable has no binding *)
+Definition mu (L : list nat) (a : passign) : nat := length (filter (unb a) L).
+
+Lemma mu_le : forall L a a', pa_le a a' -> mu L a' <= mu L a.
+Proof.
+  intros L a a' Hl. unfold mu. apply filter_length_le. intros x _ Hx. unfold unb in *.
+  destruct (pa_get a x) as [b|] eqn:E; [|reflexivity]. rewrite (Hl _ _ E) in Hx. discriminate.
+Qed.
+
+Lemma mu_cons_lt : forall L a v b, In v L -> pa_get a v = None -> mu L ((v, b) :: a) < mu L a.
+Proof.
+  intros L a v b Hin Hn. pose proof (mu_le L a _ (pa_le_cons a v b Hn)) as Hle.
+  destruct (Nat.eq_dec (mu L ((v, b) :: a)) (mu L a)) as [E|E]; [|lia]. exfalso.
+  unfold mu in E.
+  assert (Hp : forall x, In x L -> unb ((v, b) :: a) x = true -> unb a x = true).
+  { intros x _ Hx. unfold unb in *. destruct (pa_get a x) as [c|] eqn:Ex; [|reflexivity].
+    rewrite (pa_le_cons a v b Hn _ _ Ex) in Hx. discriminate. }
+  assert (Hv : unb a v = true) by (unfold unb; rewrite Hn; reflexivity).
+  pose proof (filter_length_eq _ _ L Hp E v Hin Hv) as H.
+  unfold unb in H. cbn [pa_get] in H. rewrite Nat.eqb_refl in H. discriminate.
+Qed.
+
+Definition lits_in (L : list nat) (cls : cnf) : Prop := forall c l, In c cls -> In l c -> In (lit_var l) L.
+
+Lemma lits_in_concat : forall cls, lits_in (map lit_var (concat cls)) cls.
+Proof.
+  intros cls c l Hc Hl. apply in_map. apply in_concat. exists c. split; assumption.
+Qed.
+
+(* a sweep that reports a change has bound a variable of L that had no binding *)
+Lemma up_sweep_changed_lt : forall L r a ch a', lits_in L r ->
+  up_sweep r a ch = Some (a', true) -> ch = true \/ mu L a' < mu L a.
+Proof.
+  intros L r. induction r as [|c r IH]; intros a ch a' HL H.
+  - cbn [up_sweep] in H. injection H as _ H. left. exact H.
+  - assert (HLr : lits_in L r). { intros c0 l Hc0 Hl. apply (HL c0 l); [right; exact Hc0|exact Hl]. }
+    cbn [up_sweep] in H. destruct (pa_sat a c); [exact (IH _ _ _ HLr H)|].
+    destruct (pa_free a c) as [|l0 [|l1 t]] eqn:Ef.
+    + discriminate.
+    + right. apply pa_free_single in Ef. destruct Ef as [Hl0 Hn].
+      pose proof (mu_le L _ _ (up_sweep_le _ _ _ _ _ H)) as H1.
+      pose proof (mu_cons_lt L a (lit_var l0) (lit_sign l0) (HL c l0 (or_introl eq_refl) Hl0) Hn) as H2.
+      lia.
+    + exact (IH _ _ _ HLr H).
+Qed.
+
+Lemma up_loop_ends : forall L k cls a, lits_in L cls -> mu L a < k ->
+  up_loop k cls a = None \/ exists a', up_loop k cls a = Some (a', true).
+Proof.
+  intros L. induction k as [|k IH]; intros cls a HL Hk; [lia|].
+  cbn [up_loop]. destruct (up_sweep cls a false) as [[a1 ch]|] eqn:E; [|left; reflexivity].
+  destruct ch.
+  - apply (IH cls a1 HL). destruct (up_sweep_changed_lt L cls a false a1 HL E) as [H|H]; [discriminate|lia].
+  - right. exists a1. reflexivity.
+Qed.
+
+Lemma up_sweep_flag : forall r a a' ch', up_sweep r a true = Some (a', ch') -> ch' = true.
+Proof.
+  induction r as [|c r IH]; intros a a' ch' H; cbn [up_sweep] in H.
+  - injection H as _ H. symmetry. exact H.
+  - destruct (pa_sat a c); [exact (IH _ _ _ H)|].
+    destruct (pa_free a c) as [|l0 [|l1 t]]; [discriminate|exact (IH _ _ _ H)|exact (IH _ _ _ H)].
+Qed.
+
+Lemma up_sweep_unchanged : forall r a a', up_sweep r a false = Some (a', false) -> a' = a.
+Proof.
+  induction r as [|c r IH]; intros a a' H; cbn [up_sweep] in H.
+  - injection H as H. symmetry. exact H.
+  - destruct (pa_sat a c); [exact (IH _ _ H)|].
+    destruct (pa_free a c) as [|l0 [|l1 t]]; [discriminate| |exact (IH _ _ H)].
+    apply up_sweep_flag in H. discriminate.
+Qed.
+
+(* the flag of the loop: the last sweep left the assignment unchanged *)
+Lemma up_loop_fixpoint : forall k cls a a', up_loop k cls a = Some (a', true) ->
+  up_sweep cls a' false = Some (a', false).
+Proof.
+  induction k as [|k IH]; intros cls a a' H; cbn [up_loop] in H; [discriminate|].
+  destruct (up_sweep cls a false) as [[a1 ch]|] eqn:E; [|discriminate]. destruct ch.
+  - exact (IH _ _ _ H).
+  - injection H as H. subst a'. pose proof (up_sweep_unchanged _ _ _ E) as H1. subst a1. exact E.
+Qed.
+
+Lemma up_loop_mono : forall k j cls a, k <= j ->
+  (up_loop k cls a = None -> up_loop j cls a = None) /\
+  (forall a', up_loop k cls a = Some (a', true) -> up_loop j cls a = Some (a', true)).
+Proof.
+  induction k as [|k IH]; intros j cls a Hle.
+  - cbn [up_loop]. split; [discriminate|]. intros a' H. discriminate.
+  - destruct j as [|j]; [lia|]. cbn [up_loop].
+    destruct (up_sweep cls a false) as [[a1 [|]]|].
+    + apply IH. lia.
+    + split; [discriminate|]. intros a' H. exact H.
+    + split; [reflexivity|]. intros a' H. discriminate.
+Qed.
+
+Lemma filter_all_true : forall (l : list nat), filter (fun _ : nat => true) l = l.
+Proof. induction l as [|x r IH]; [reflexivity|]. cbn [filter]. rewrite IH. reflexivity. Qed.
+
+Theorem up_fuel_enough : forall cls a,
+  (up_loop (up_fuel cls) cls a = None \/
+   exists a', up_loop (up_fuel cls) cls a = Some (a', true) /\ up_sweep cls a' false = Some (a', false)) /\
+  (forall k, up_fuel cls <= k -> up_loop k cls a = up_loop (up_fuel cls) cls a /\
+                                 up_run_fuel k cls a = up_run cls a).
+Proof.
+  intros cls a.
+  assert (H : up_loop (up_fuel cls) cls a = None \/ exists a', up_loop (up_fuel cls) cls a = Some (a', true)).
+  { apply (up_loop_ends (map lit_var (concat cls))); [apply lits_in_concat|].
+    unfold up_fuel, mu. pose proof (filter_length_le (unb a) (fun _ => true) (map lit_var (concat cls))
+      (fun _ _ _ => eq_refl)) as Hl.
+    rewrite filter_all_true, map_length in Hl. lia. }
+  split.
+  - destruct H as [H|[a' H]]; [left; exact H|]. right. exists a'. split; [exact H|].
+    exact (up_loop_fixpoint _ _ _ _ H).
+  - intros k Hk. destruct (up_loop_mono (up_fuel cls) k cls a Hk) as [M1 M2].
+    assert (E : up_loop k cls a = up_loop (up_fuel cls) cls a).
+    { destruct H as [H|[a' H]]; [rewrite H; exact (M1 H)|rewrite H; exact (M2 a' H)]. }
+    split; [exact E|]. unfold up_run, up_run_fuel. rewrite E. reflexivity.
+Qed.
